@@ -210,7 +210,7 @@ func TestVP_C27_lifecycle(t *testing.T) {
 	c := kit.New(t, "C27", "rapid T.Repeat on a genesis-loaded store (7 accepted nodes, reset per case): pledge/accept/cancel/remove written directly with writeNodePledge/Accept/Cancel/Remove inside one Badger transaction each; signer and payee drawn from the genesis keys plus 12 pool keys (reuse likely), strictly increasing timestamps with gaps from {1 ns .. 8 d incl. 12 h +-1, 7 d +-1}, transaction hashes fresh or reused from earlier records; about half of the ops are built to be legal in the reference machine, the rest are arbitrary (accept without pledge, second pledge, wrong payee, reused signer, remove of pledging/removed/unknown node ...). Oracle: an op the store recorded must be legal in the lifecycle machine written from the statement; after every op ReadAllNodes(inf,true) equals the recorded history in (timestamp, signer) order and ReadAllNodes(thr,false) (thr = inf and drawn thresholds) reports every signer once with its latest record; legal ops that are rejected are only counted; non-trivial = history with a pledge->accept->remove cycle of one node and >=2 rejected ops; distinct by op trace")
 	c.Require("cycle", "rejected-illegal", "pledge", "accept", "cancel", "remove", "illegal:wrong-payee", "illegal:accept-without-pledge", "illegal:second-pledge", "illegal:reused-signer", "illegal:remove-while-pledging", "illegal:remove-not-accepted", "pledge-with-latest-tx", "threshold-read")
 	c.Assume("timestamps passed to the store increase strictly (the caller's guarantee, C28)", "a pledge whose transaction hash equals the transaction of a superseded (non-latest) record is not judged: payload hashes are unique in the kernel, the store only checks latest records")
-	kit.SetChecks(kit.N(500, 15000))
+	kit.SetChecks(kit.N(300, 15000))
 	kit.SetSteps(24)
 	sh := vpC27Open(t)
 	var legalTotal, legalAccepted int
